@@ -1127,15 +1127,33 @@ class C17(Check):
             self.x_signapp_key(Args(app=0, iter="77", keys=[4, 4, 5]), stats, vs)
 
     def x_signapp_keyform(self, a, stats, vs):
-        """args: key (string), kname, expect valid|refuse|open"""
+        """args: key (string), kname, expect valid|refuse|open, pre (the output file already holds
+        an authorization with one signature: a refusal leaves it as it was)"""
         stats.evaluations += 1
         app = self.td.write("app0.hex", self.app_text[0])
         outp = self.td.file("auth.json")
         if os.path.exists(outp):
             os.unlink(outp)
+        if a.pre:
+            self.td.write("auth.json", json.dumps(
+                {"version": 1, "signer": {"hash": self.app_hash[0].hex(), "iteration": 3},
+                 "signatures": [ecsig.sign_libsecp(self.keys[5], ref_digest(self.app_hash[0], 3)).hex()]},
+                indent=2) + "\n")
+        held = self.td.read("auth.json")
         argv = ["key", "-o", outp, "-a", app, "-i", "3"] + (["-k", a.key] if a.key is not None else [])
         r = self.run_signapp(argv, verbose=bool(a.verbose))
         saved = self.td.read("auth.json")
+        if a.pre:
+            if r.code != 0 and not same_content(saved, held):
+                self.viol(vs, "refusal-changed-state", "signapp-key:existing-file:%s" % a.kname,
+                          "signapp_keyform", dict(a), {"exit": r.code, "file": saved}, {"file": held})
+            if a.expect == "refuse" and r.code == 0:
+                self.viol(vs, "malformed-accepted", "signapp-key:%s" % a.kname, "signapp_keyform", dict(a),
+                          {"exit": r.code}, {"exit": "nonzero"})
+            stats.observe(("signapp-keyform-existing", a.kname, r.code))
+            if a.expect == "open":
+                stats.dont_care += 1
+            return
         stats.observe(("signapp-keyform", a.kname, r.code, saved is not None))
         args = dict(a)
         if a.expect == "open":
@@ -1168,6 +1186,7 @@ class C17(Check):
                  ("empty", "", "refuse")]
         for kname, key, expect in forms:
             self.x_signapp_keyform(Args(key=key, kname=kname, expect=expect), stats, vs)
+            self.x_signapp_keyform(Args(key=key, kname=kname, expect=expect, pre=True), stats, vs)
 
     def x_signapp_manual(self, a, stats, vs):
         """args: nsig (already in the file), kind of the signature given with -g"""
